@@ -123,7 +123,7 @@ def harness(cfg, ns):
         if cfg["mode"] == "custom":
             anns = [f"g{i}" for i in range(cfg["nann"])]
             P = {k: ctx.fresh(k) for k in ("avg_nb", "std_nb", "avg_gap", "std_gap", "avg_dur", "std_dur")}
-            cats = ["x", "y"]
+            cats = ["y", "x"]               # supplied out of alphabetical order, on purpose: each weight belongs to its own category
             weights = [0.25, 0.75] if cfg["weights"] else None
             s.init_sampling_custom(anns, P["avg_nb"], P["std_nb"], P["avg_gap"], P["std_gap"], P["avg_dur"], P["std_dur"], cats, weights)
             inputs = list(P.values())
@@ -217,7 +217,7 @@ def harness(cfg, ns):
         obls.append(Obl("every-normal-draw-uses-one-of-the-three-documented-parameter-pairs", len(nb_draws) + len(gap_draws) + len(dur_draws) == len(normals), rz))
         obls.append(Obl("one-count-draw-per-annotator", len(nb_draws) == len(gt_names), rz))
         for ch in choices:
-            obls.append(Obl("label-draw-uses-(categories,weights)", [str(x) for x in ch[1]] == cats and _weights_ok(ch[2], weights), rz))
+            obls.append(Obl("label-draw-uses-(categories,weights)", _pairs_ok([str(x) for x in ch[1]], ch[2], cats, weights), rz))
         per_ann = {a: [x for x in ADDS if x[0] == a] for a in sorted(gt_names)}
         empty_so_far = True
         for ai, a in enumerate(sorted(gt_names)):
@@ -275,6 +275,17 @@ def _count_next(log, pos, s):
 
 def _redraw_possible(log, pos):
     return True
+
+
+def _pairs_ok(seq, p, cats, weights):
+    """the draw is made from the documented categories, each with ITS weight (any consistent order of the pairs)"""
+    if sorted(seq) != sorted(cats):
+        return False
+    if weights is None:
+        return p is None
+    if p is None or len(p) != len(seq):
+        return False
+    return sorted((c_, round(float(w_), 12)) for c_, w_ in zip(seq, p)) == sorted((c_, round(float(w_), 12)) for c_, w_ in zip(cats, weights))
 
 
 def _weights_ok(p, weights):
@@ -386,8 +397,8 @@ def replay(case):
         P = {k: F(v) for k, v in case["params"].items()}
         anns = [f"g{i}" for i in range(case["nann"])]
         weights = [0.25, 0.75] if case["weights"] else None
-        s.init_sampling_custom(anns, P["avg_nb"], P["std_nb"], P["avg_gap"], P["std_gap"], P["avg_dur"], P["std_dur"], ["x", "y"], weights)
-        cats = ["x", "y"]
+        s.init_sampling_custom(anns, P["avg_nb"], P["std_nb"], P["avg_gap"], P["std_gap"], P["avg_dur"], P["std_dur"], ["y", "x"], weights)
+        cats = ["y", "x"]
         gt = anns
     else:
         c = common.real_continuum(dict(units=case["units"], annotators=ANN[:len(case["sizes"])]))
@@ -449,10 +460,8 @@ def replay(case):
     if len(nb) != len(gt):
         bad.append(f"{len(nb)} unit-count draws for {len(gt)} annotators")
     for c_ in chs:
-        if c_[1] != [str(x) for x in cats]:
-            bad.append(f"label drawn from {c_[1]}, categories are {cats}")
-        if (weights is None) != (c_[2] is None) or (weights is not None and any(not close(a, b) for a, b in zip(c_[2], weights))):
-            bad.append(f"label drawn with weights {c_[2]}, documented weights {weights}")
+        if not _pairs_ok(c_[1], c_[2], [str(x) for x in cats], weights):
+            bad.append(f"label drawn from {c_[1]} with weights {c_[2]}; documented: categories {cats} with weights {weights} (each weight with its own category)")
     empty = True
     for ai, a in enumerate(sorted(gt)):
         mine = [x for x in adds if x[0] == a]
